@@ -101,6 +101,12 @@ func (f *FuncVC) call(st *State, x *ssa.Call) *Val {
 			f.oblige(st, "nil", f.srcAt(x.Pos()), not(eq(fv.T, "0")))
 		}
 	}
+	if r, ok := f.binaryReadParser(st, x); ok {
+		return r
+	}
+	if r, ok := f.readFullParser(st, x); ok {
+		return r
+	}
 	if con := f.contractFor(c); con != nil {
 		return f.applyContract(st, x, con, args)
 	}
@@ -109,9 +115,6 @@ func (f *FuncVC) call(st *State, x *ssa.Call) *Val {
 		return f.applyContract(st, x, con, args)
 	}
 	if r, ok := f.fieldFuncCall(st, x, args); ok {
-		return r
-	}
-	if r, ok := f.binaryReadParser(st, x); ok {
 		return r
 	}
 	if r, ok := f.libCall(st, x, args); ok {
@@ -842,4 +845,41 @@ func (f *FuncVC) binaryReadParser(st *State, x *ssa.Call) (*Val, bool) {
 	tv := f.val(st, di.X)
 	f.storeTo(st, tv, f.freshTyped(st, dpt.Elem(), "binread"), dpt.Elem())
 	return res, true
+}
+
+
+// readFullParser models io.ReadFull(p, buf) for a reader that is a
+// *parser.Parser of the repository: Parser.Read itself fills the whole buffer
+// or fails, so io.ReadFull makes one call of p.Read and returns its results
+// (io.ReadFull only maps a short read to io.ErrUnexpectedEOF, which p.Read
+// already reports).  The checked contract of (*Parser).Read is used.
+func (f *FuncVC) readFullParser(st *State, x *ssa.Call) (*Val, bool) {
+	c := &x.Call
+	fn := c.StaticCallee()
+	if fn == nil || fn.Pkg == nil || fn.Pkg.Pkg.Path() != "io" || fn.Name() != "ReadFull" || len(c.Args) != 2 {
+		return nil, false
+	}
+	ri, ok := c.Args[0].(*ssa.MakeInterface)
+	if !ok {
+		return nil, false
+	}
+	pt, ok := ri.X.Type().(*types.Pointer)
+	if !ok {
+		return nil, false
+	}
+	nt, ok := pt.Elem().(*types.Named)
+	if !ok || nt.Obj().Pkg() == nil || nt.Obj().Pkg().Path() != modPath+"/parser" || nt.Obj().Name() != "Parser" {
+		return nil, false
+	}
+	obj, _, _ := types.LookupFieldOrMethod(pt, true, nt.Obj().Pkg(), "Read")
+	m, _ := obj.(*types.Func)
+	if m == nil {
+		return nil, false
+	}
+	con := f.eng.contractOf(m)
+	if con == nil || len(con.Params) != 2 {
+		return nil, false
+	}
+	f.usedAssumed["io.ReadFull(p, buf) with a *parser.Parser: one call of p.Read(buf) (which fills the buffer or fails); its results are returned"] = true
+	return f.applyContract(st, x, con, []*Val{f.val(st, ri.X), f.val(st, c.Args[1])}), true
 }
